@@ -518,6 +518,11 @@ RunTx(st, codes, block, call, sc) ==
                                                SysEntry(<<[e |-> "mint", to |-> call.to, coins |-> call.coins]>>, "mint")),
                                   ok |-> TRUE, resps |-> <<[ev |-> <<>>, data |-> NoData]>>]
                     ELSE [x |-> x0m, ok |-> FALSE, resps |-> <<>>]
+               [] call.k = "sudo_custom" ->         \* App::sudo(SudoMsg::Custom) as one would expect it: handed to the custom module.
+                                                    \* NOT offered by any menu: Router::sudo has `_ => unimplemented!()` for it (DESIGN 0.2)
+                    LET xs == [x0 EXCEPT !.rlog = <<[slot |-> "custom", sender |-> "", payload |-> "sudo"]>>] IN
+                    IF Mods["custom"] = "accept" THEN [x |-> xs, ok |-> TRUE, resps |-> <<[ev |-> <<>>, data |-> NoData]>>]
+                    ELSE [x |-> xs, ok |-> FALSE, resps |-> <<>>]
                [] call.k = "sudo_slash" ->          \* App::sudo(SudoMsg::Staking(StakingSudo::Slash)); p above one is "over"
                     IF call.p = "over" \/ call.v \notin Validators \/ Mods["staking"] # "real"
                     THEN [x |-> x0, ok |-> FALSE, resps |-> <<>>]
